@@ -66,6 +66,43 @@ theorem runD_inv : ∀ (l : List (Op × Sched)) (a : Enc × Bool), InvS a.1 a.2 
     have := stepD_sim (a := a) (b := a) ⟨Sim.refl _, rfl, h, h⟩ op (hs (op, s) (by simp)) s s
     exact runD_inv r _ this.inv₁ (fun p hp => hs p (by simp [hp]))
 
+/-! ### without the discipline: UnwriteEmptyObjectMember at any moment -/
+
+/-- Same frames, same stream, and both runs satisfy the shape invariant (which does not need freshness). -/
+structure SimU (e₁ e₂ : Enc) : Prop where
+  sim : Sim e₁ e₂
+  inv₁ : InvS e₁ false
+  inv₂ : InvS e₂ false
+
+theorem step_simU {e₁ e₂ : Enc} (h : SimU e₁ e₂) (op : Op) (hs : SaneCall op) (s₁ s₂ : Sched) :
+    SimU (step e₁ op s₁) (step e₂ op s₂) := by
+  obtain ⟨hsim, h1, h2⟩ := h
+  cases op with
+  | tok t ws =>
+    rcases write_sim hsim t ws with ⟨w1, w2⟩ | ⟨e₁', e₂', w1, w2, _⟩
+    · simp only [step, w1, w2]; exact ⟨hsim, h1, h2⟩
+    · exact ⟨(step_tok_sim hsim h1.bottom t ws s₁ s₂).1, (invS_step_tok h1 hs w1 s₁).weaken,
+        (invS_step_tok h2 hs w2 s₂).weaken⟩
+  | unwriteEmpty =>
+    simp only [step]
+    exact ⟨unwriteEmpty_sim hsim h1 h2, invS_unwriteEmpty h1, invS_unwriteEmpty h2⟩
+  | unwriteName =>
+    simp only [step]
+    exact ⟨unwriteName_sim hsim h1 h2, invS_unwriteName h1, invS_unwriteName h2⟩
+
+theorem run_simU : ∀ (l₁ l₂ : List (Op × Sched)) (e₁ e₂ : Enc), SimU e₁ e₂ →
+    l₁.map Prod.fst = l₂.map Prod.fst → (∀ p ∈ l₁, SaneCall p.1) → SimU (run e₁ l₁) (run e₂ l₂)
+  | [], [], _, _, h, _, _ => by simpa [run] using h
+  | [], _ :: _, _, _, _, hl, _ => by simp at hl
+  | _ :: _, [], _, _, _, hl, _ => by simp at hl
+  | (op₁, s₁) :: r₁, (op₂, s₂) :: r₂, e₁, e₂, h, hl, hs => by
+    simp only [List.map_cons, List.cons.injEq] at hl
+    obtain ⟨ho, hr⟩ := hl
+    have ho : op₁ = op₂ := ho
+    subst ho
+    exact run_simU r₁ r₂ _ _ (step_simU h op₁ (hs (op₁, s₁) (by simp)) s₁ s₂) hr
+      (fun p hp => hs p (by simp [hp]))
+
 /-- What the writer accepted only grows along a disciplined run. -/
 theorem stepD_delivered_prefix (a : Enc × Bool) (op : Op) (s : Sched) : a.1.delivered <+: (stepD a op s).1.delivered := by
   cases op with
